@@ -138,15 +138,36 @@ def _method_exits(c: Ctx, f: Func, methods: dict[str, Func], summaries: dict, en
             return ()
         return (s,)
 
+    # locals that only ever hold the cache attribute (`chains = self.__cache__`) stand for it in the test - provided no event
+    # that can change the cache lies between the read and the test, which holds when the test directly follows the read
+    alias_defs: dict[str, list[ast.AST]] = {}
+    for n_ in own_nodes(f.node):
+        if isinstance(n_, ast.Assign):
+            for t_ in n_.targets:
+                if isinstance(t_, ast.Name):
+                    alias_defs.setdefault(t_.id, []).append(n_)
+    aliases = {nm for nm, ds in alias_defs.items() if all(_is_self_attr(d.value, _CFG["cache"]) for d in ds)}
+
+    def is_cache_expr(e: ast.AST, at: ast.AST) -> bool:
+        if _is_self_attr(e, _CFG["cache"]):
+            return True
+        if isinstance(e, ast.Name) and e.id in aliases:
+            # the statement just before the test (in the same block) is the read
+            for blk in _blocks_of(f.node):
+                for i_, st_ in enumerate(blk):
+                    if isinstance(st_, ast.If) and st_.test is at and i_ > 0 and alias_defs[e.id] and blk[i_ - 1] in alias_defs[e.id]:
+                        return True
+        return False
+
     def cache_none_test(a: ast.AST):
         """-> True if the test is `cache is None`-like, False if `cache is not None`-like, None otherwise."""
-        if isinstance(a, ast.Compare) and len(a.ops) == 1 and _is_self_attr(a.left, _CFG["cache"]) \
+        if isinstance(a, ast.Compare) and len(a.ops) == 1 and is_cache_expr(a.left, a) \
                 and isinstance(a.comparators[0], ast.Constant) and a.comparators[0].value is None:
             if isinstance(a.ops[0], (ast.Is, ast.Eq)):
                 return True
             if isinstance(a.ops[0], (ast.IsNot, ast.NotEq)):
                 return False
-        if _is_self_attr(a, _CFG["cache"]):
+        if is_cache_expr(a, a):
             return False
         return None
 
@@ -600,6 +621,54 @@ def _simulate_loop(cfg: CFG, head: Node, is_hit, env, rulevar, chainvar):
     return hit
 
 
+def _blocks_of(fn: ast.AST):
+    for n in ast.walk(fn):
+        for fld in ("body", "orelse", "finalbody"):
+            b = getattr(n, fld, None)
+            if isinstance(b, list) and b and isinstance(b[0], ast.stmt):
+                yield b
+
+
+def _rule_source(c: Ctx, hf: Func, it: ast.AST, depth: int = 0) -> tuple[bool, list[tuple[ast.AST, str]]]:
+    """Does the iterable denote self.__rules__ in registration order, possibly pre-filtered?  -> (yes?, [(condition, its rule
+    variable)]).  Follows a local with one definition, a comprehension `[r for r in <src> if cond]` that keeps the elements
+    themselves, and a private method of Ruler returning such a list."""
+    if depth > 3:
+        return False, []
+    if _is_self_attr(it, RULES_ATTR):
+        return True, []
+    if isinstance(it, ast.Name):
+        defs = [n.value for n in own_nodes(hf.node) if isinstance(n, (ast.Assign, ast.AnnAssign)) and n.value is not None and any(
+            isinstance(t, ast.Name) and t.id == it.id for t in (n.targets if isinstance(n, ast.Assign) else [n.target]))]
+        if len(defs) == 1:
+            return _rule_source(c, hf, defs[0], depth + 1)
+        return False, []
+    if isinstance(it, (ast.ListComp, ast.GeneratorExp)) and len(it.generators) == 1 and isinstance(it.generators[0].target, ast.Name) \
+            and isinstance(it.elt, ast.Name) and it.elt.id == it.generators[0].target.id:
+        ok, conds = _rule_source(c, hf, it.generators[0].iter, depth + 1)
+        return ok, conds + [(cnd, it.generators[0].target.id) for cnd in it.generators[0].ifs]
+    if isinstance(it, ast.Call) and isinstance(it.func, ast.Name) and it.func.id in ("list", "tuple") and len(it.args) == 1:
+        return _rule_source(c, hf, it.args[0], depth + 1)
+    if isinstance(it, ast.Call) and not it.args:
+        cs = c.cg.site_of.get(it)
+        if cs is not None and len(cs.callees) == 1 and cs.callees[0].cls == hf.cls:
+            h = cs.callees[0]
+            rets = [n for n in own_nodes(h.node) if isinstance(n, ast.Return) and n.value is not None]
+            if len(rets) == 1:
+                return _rule_source(c, h, rets[0].value, depth + 1)
+    return False, []
+
+
+def _pre_ok(conds: list[tuple[ast.AST, str]], env: dict) -> bool | None:
+    out = True
+    for (cnd, var) in conds:
+        t = _truth(cnd, env, var, None)
+        if t is None:
+            return None
+        out = out and t
+    return out
+
+
 def rule_chain(c: Ctx) -> RuleResult:
     r = RuleResult("CHAIN", "compiled chains contain exactly the enabled rules, filtered by chain membership, in registration "
                             "order; get_active_rules reports by the same field")
@@ -622,7 +691,7 @@ def rule_chain(c: Ctx) -> RuleResult:
         rulevar = loop.target.id       # type: ignore[union-attr]
         where = f"markdown_it/ruler.py:{loop.lineno}"
         # registration order: iterate the rule list itself
-        ok_iter = _is_self_attr(loop.iter, RULES_ATTR)
+        ok_iter, pre = _rule_source(c, f, loop.iter)
         r.add("__compile__|iter", where, "Ruler.__compile__", f"for {rulevar} in {U(loop.iter)}",
               "discharged" if ok_iter else "violation",
               "iterates self.__rules__ itself (registration order)" if ok_iter else
@@ -644,6 +713,8 @@ def rule_chain(c: Ctx) -> RuleResult:
             env = {"E": E, "C": C, "M": M}
             want = E and ((not C) or M)
             got = _simulate_loop(cfg, head, is_hit, env, rulevar, chainvar)
+            pv = _pre_ok(pre, env)
+            got = None if got is None or pv is None else (got and pv)
             desc = f"enabled={E}, named-chain={C}, member={M}"
             key = f"__compile__|truth|{desc}"
             if got is None:
@@ -685,15 +756,18 @@ def rule_chain(c: Ctx) -> RuleResult:
                         break
                     par = f.module.parents.get(par)
                 where = f"markdown_it/ruler.py:{n.lineno}"
-                ok_iter = _is_self_attr(g.iter, RULES_ATTR)
+                ok_iter, pre = _rule_source(c, hf, g.iter)
                 r.add("__compile__|iter", where, "Ruler.__compile__", f"for {rulevar} in {U(g.iter)}",
                       "discharged" if ok_iter else "violation",
-                      "iterates self.__rules__ itself (registration order)" if ok_iter else "does not iterate self.__rules__ directly")
+                      "iterates self.__rules__ itself (registration order)" + (" through a pre-filtered list" if pre else "") if ok_iter else
+                      "does not iterate self.__rules__ directly")
                 cond = ast.BoolOp(op=ast.And(), values=list(g.ifs)) if g.ifs else ast.Constant(value=True)
                 for E, C, M in itertools.product((False, True), repeat=3):
                     env = {"E": E, "C": C, "M": M}
                     want = E and ((not C) or M)
                     got = _truth(cond, env, rulevar, chainvar)
+                    pv = _pre_ok(pre, env)
+                    got = None if got is None or pv is None else (got and pv)
                     desc = f"enabled={E}, named-chain={C}, member={M}"
                     ok = got is not None and got == want
                     r.add(f"__compile__|truth|{desc}", where, "Ruler.__compile__", desc, "discharged" if ok else "violation",
@@ -715,7 +789,7 @@ def rule_chain(c: Ctx) -> RuleResult:
             while p_ is not None and p_ is not hf.node:
                 if isinstance(p_, ast.stmt) and stmt is None:
                     stmt = p_
-                if isinstance(p_, ast.For) and isinstance(p_.target, ast.Name) and p_.target.id == rv and _is_self_attr(p_.iter, RULES_ATTR):
+                if isinstance(p_, ast.For) and isinstance(p_.target, ast.Name) and p_.target.id == rv and _rule_source(c, hf, p_.iter)[0]:
                     # is the statement reading .alt a collection into a set, reached for an enabled rule?
                     collects = any(isinstance(y, ast.Call) and isinstance(y.func, ast.Attribute) and y.func.attr in ("add", "update") for y in ast.walk(stmt)) \
                         or isinstance(stmt, ast.AugAssign) or isinstance(stmt, ast.For)
@@ -724,12 +798,12 @@ def rule_chain(c: Ctx) -> RuleResult:
                         tgt = stmt
                         got = _simulate_loop(hcfg, head, lambda a, tgt=tgt: a is tgt or (isinstance(tgt, ast.For) and a is tgt), {"E": True, "C": True, "M": True}, rv, None)
                         got_off = _simulate_loop(hcfg, head, lambda a, tgt=tgt: a is tgt, {"E": False, "C": True, "M": True}, rv, None)
-                        if got:
+                        if got and _pre_ok(_rule_source(c, hf, p_.iter)[1], {"E": True, "C": True, "M": True}):
                             ok_alt = True
                     break
                 if isinstance(p_, (ast.SetComp, ast.ListComp, ast.GeneratorExp, ast.DictComp)):
                     gens = p_.generators
-                    if any(isinstance(g.target, ast.Name) and g.target.id == rv and _is_self_attr(g.iter, RULES_ATTR) for g in gens):
+                    if any(isinstance(g.target, ast.Name) and g.target.id == rv and _rule_source(c, hf, g.iter)[0] for g in gens):
                         ok_alt = True
                         break
                 p_ = hf.module.parents.get(p_)
@@ -759,8 +833,10 @@ def rule_chain(c: Ctx) -> RuleResult:
     params = [a.arg for a in g.node.args.args][1:]
     rets = [n for n in own_nodes(g.node) if isinstance(n, ast.Return) and n.value is not None]
     ok = bool(rets) and bool(params)
+    cache_locals = {t.id for n in own_nodes(g.node) if isinstance(n, ast.Assign) and _is_self_attr(n.value, CACHE_ATTR)
+                    for t in n.targets if isinstance(t, ast.Name)}
     for rt in rets:
-        uses_cache = any(_is_self_attr(x, CACHE_ATTR) for x in ast.walk(rt.value))
+        uses_cache = any(_is_self_attr(x, CACHE_ATTR) or (isinstance(x, ast.Name) and x.id in cache_locals) for x in ast.walk(rt.value))
         uses_param = any(isinstance(x, ast.Name) and x.id == params[0] for x in ast.walk(rt.value)) if params else False
         ok = ok and uses_cache and uses_param
     r.add("getRules|lookup", f"markdown_it/ruler.py:{g.node.lineno}", "Ruler.getRules", "return self.__cache__[chainName]-like",
